@@ -37,6 +37,13 @@ var crashCases = []struct {
 	{name: "BITFIELD_RO GET negative offset on a missing key", cmd: []string{"BITFIELD_RO", "nokey", "GET", "u8", "-8"}},
 	{name: "RESTORE with a length field larger than the payload", cmd: []string{"RESTORE", "r", "0", "\x01\x01\xff\xff\xff\xff" + restoreSum("\x01\x01\xff\xff\xff\xff")}},
 	{name: "COMMAND GETKEYS with too large numkeys", cmd: []string{"COMMAND", "GETKEYS", "LMPOP", "99", "a", "LEFT"}},
+	{name: "RESTORE of a payload that claims to be a hash, then HGET", setup: [][]string{{"RESTORE", "r", "0", "\x01\x02\x00\x00\x00\x02a" + restoreSum("\x01\x02\x00\x00\x00\x02a")}}, cmd: []string{"HGET", "r", "f"}},
+	{name: "DUMP of a list restored under another name, then LRANGE", setup: [][]string{{"RPUSH", "l", "a"}, {"RESTORE", "l2", "0", "\x01\x08\x00\x00\x00\x00" + restoreSum("\x01\x08\x00\x00\x00\x00")}}, cmd: []string{"LRANGE", "l2", "0", "-1"}},
+	{name: "wire set with an array as member", raw: "~1\r\n*0\r\n"},
+	{name: "wire map with an array as key", raw: "%1\r\n*0\r\n+x\r\n"},
+	{name: "wire attribute map with an array as key", raw: "|1\r\n*0\r\n+x\r\n"},
+	{name: "BITCOUNT of an empty string", setup: [][]string{{"SET", "e", ""}}, cmd: []string{"BITCOUNT", "e"}},
+	{name: "BITCOUNT of an empty string with a range", setup: [][]string{{"SET", "e", ""}}, cmd: []string{"BITCOUNT", "e", "0", "-1"}},
 }
 
 func TestDemoC13Child(t *testing.T) {
